@@ -23,7 +23,7 @@ from typing import Any, Callable, Iterable, Optional
 
 VERIF = os.path.dirname(os.path.dirname(os.path.dirname(os.path.abspath(__file__))))
 LEAN_ROOT = os.path.join(VERIF, "lean", "OFCore")
-DRIVER = os.path.join(LEAN_ROOT, ".lake", "build", "bin", "ofdriver")
+BIN = os.path.join(LEAN_ROOT, ".lake", "build", "bin")
 REPO = os.environ.get("OFV_REPO", "/repo")
 ALLOWED_AXIOMS = {"propext", "Classical.choice", "Quot.sound"}
 FORBIDDEN = re.compile(r"\bsorry\b|\badmit\b|^\s*axiom\s|native_decide|bv_decide|implemented_by|\bunsafe\s|maxHeartbeats\s+0\b|reduceBool|ofReduceBool")
@@ -90,6 +90,7 @@ class Prop:
     exhaustive_note: str = ""
     canon_equal: Optional[Callable[[Case, str, str], bool]] = None  # impl vs model comparison
     search_budget_factor: int = 10
+    driver: str = "ofdrv_per"               # lean_exe target serving this property's protocol lines
 
 
 # --------------------------------------------------------------------------------------
@@ -136,7 +137,9 @@ def lean_sources() -> list:
         for f in fs:
             if f.endswith(".lean"):
                 out.append(os.path.join(d, f))
-    out.append(os.path.join(LEAN_ROOT, "Driver.lean"))
+    for f in os.listdir(os.path.join(LEAN_ROOT, "Drivers")):
+        if f.endswith(".lean"):
+            out.append(os.path.join(LEAN_ROOT, "Drivers", f))
     return sorted(out)
 
 
@@ -184,7 +187,7 @@ def axiom_audit(pid: str) -> tuple[dict, str]:
     return res, out[-3000:]
 
 
-def run_driver(lines: list, nproc: int = NPROC) -> list:
+def run_driver(lines: list, driver: str = "ofdrv_per", nproc: int = NPROC) -> list:
     """Send lines to the compiled model driver (several processes), return one answer per line."""
     if not lines:
         return []
@@ -192,7 +195,7 @@ def run_driver(lines: list, nproc: int = NPROC) -> list:
     chunks = [lines[i::n] for i in range(n)]
     procs = []
     for ch in chunks:
-        p = subprocess.Popen([DRIVER], stdin=subprocess.PIPE, stdout=subprocess.PIPE, text=True)
+        p = subprocess.Popen([os.path.join(BIN, driver)], stdin=subprocess.PIPE, stdout=subprocess.PIPE, text=True)
         procs.append(p)
     outs = []
     import threading
@@ -310,7 +313,7 @@ def write_replay(pid: str, kind: str, seed: int, body: dict) -> str:
 def evaluate(prop: Prop, modname: str, cases: list) -> list:
     impl = run_impl(modname, cases)
     try:
-        model = run_driver([c.line for c in cases])
+        model = run_driver([c.line for c in cases], prop.driver)
     except Exception as e:
         model = [f"DRIVER-FAIL {e}"] * len(cases)
     outs = []
@@ -332,7 +335,7 @@ def run_check(modname: str, tier: str, seed: int, replay: Optional[str] = None) 
     # 1. tables regenerated from the source, 2. build, 3. audits
     gen_ok, gen_msg = regenerate_tables()
     log(f"Generated.lean: {gen_msg}")
-    drv_ok, drv_log = lake_build(["ofdriver"])
+    drv_ok, drv_log = lake_build([prop.driver])
     if not drv_ok:
         log("driver build FAILED\n" + drv_log[-1500:])
     build_ok, build_log = lake_build(prop.lean_targets)
